@@ -124,6 +124,8 @@ def run(prop, tier, seed, rep):
     # --- tracker serde round trips: histories with serde steps, judged by Trace_Tracker ----------------------
     shists = [track_checks.random_history(rng, f"s{i}", rng.choice((60, 150)), rng.choice((1, 3, 6)), with_time=False, with_serde=True)
               for i in range(q(20, 300))]
+    # addresses at the corners of the address space (all zeros, all ones and their one-bit neighbours) through the round trip
+    shists += [track_checks.neighbour_history(rng, f"sn{i}", with_serde=True, base=b) for i, b in enumerate((0x000000, 0xFFFFFF))]
     for h in shists:                    # make sure every history contains several serde steps
         for j in range(5, len(h["steps"]), 9):
             h["steps"].insert(j, {"op": "serde"})
